@@ -35,6 +35,7 @@ inductive Err where
   | tsqlSyntaxError  -- tsql.TSQLSyntaxError (not a TSQLError: escapes the fallback)
   | indexError
   | valueError
+  | attributeError   -- AttributeError (F31: the message of a type-mismatch TSQLError on a :float column)
   | unmodelled       -- input outside the modelled fragment (relation without fields)
 deriving Repr, DecidableEq
 
